@@ -134,7 +134,18 @@ func VfC17Recycle() {
 	for k := 0; k < K; k++ {
 		i := vf.Choose(2)
 		s, o := &slots[i], &slots[1-i]
-		switch vf.Choose(5) {
+		switch vf.Choose(6) {
+		case 5: // scratch buffer (as the tun reader does): take a buffer, fill it, hand back a shortened view
+			n := vf.Int()
+			vf.Assume(n >= 1 && n <= 700)
+			ps := b.GetPooledSlice(n)
+			z := vf.Int()
+			vf.Assume(z >= 0 && z < cap(ps))
+			vf.Assert(ps[:cap(ps)][z] == 0, "recycled-buffer-not-zeroed")
+			vf.Havoc(ps[:cap(ps)])
+			k2 := vf.Int()
+			vf.Assume(k2 >= 0 && k2 <= len(ps))
+			b.ReturnPooledSlice(ps[:k2])
 		case 0: // new
 			vf.Assume(s.f == nil)
 			src, dst, msg, apx := vfSmallArgs()
@@ -144,6 +155,11 @@ func VfC17Recycle() {
 				continue // a refused build must leave the pools in a sane state
 			}
 			vf.Assert(f.recvLink == nil, "new-frame-has-stale-link")
+			// head and tail room of a new frame hold nothing of an earlier user of the buffer
+			z := vf.Int()
+			vf.Assume(z >= 0 && z < cap(f.pooledSlice) && (z < f.psDataOffset || z >= f.psDataOffset+len(f.data)))
+			vf.Assert(f.pooledSlice[:cap(f.pooledSlice)][z] == 0, "new-frame-margin-holds-stale-bytes")
+			vf.Assert(f.TTL() == 32 && f.FlowControl() == 0 && f.RecvRate() == 0 && f.SequenceNum() == 0 && f.SequenceAck() == 0, "new-frame-header-not-initialised")
 			s.f = f
 			s.record()
 			vf.Assert(s.src == src && s.dst == dst, "new-frame-addresses")
@@ -181,12 +197,19 @@ func VfC17Recycle() {
 			vf.Assume(s.f != nil)
 			_, _, msg, apx := vfSmallArgs()
 			osrc, odst := s.src, s.dst
+			oldBuf := s.f.pooledSlice
 			if len(msg) == 0 || s.f.Reply(nil, msg, apx) != nil {
 				vf.Stop()
+			}
+			if vf.SameObject(oldBuf, s.f.pooledSlice) {
+				vf.Reach("reply-in-place")
+			} else {
+				vf.Reach("reply-new-buffer")
 			}
 			s.record()
 			vf.Assert(s.src == odst && s.dst == osrc, "reply-addresses")
 			vf.Assert(s.f.recvLink == nil, "reply-keeps-link")
+			vf.Assert(s.f.TTL() == 32 && s.f.FlowControl() == 0 && s.f.RecvRate() == 0 && s.f.SequenceNum() == 0 && s.f.SequenceAck() == 0, "reply-keeps-header-fields-of-request")
 			m := vf.Int()
 			vf.Assume(m >= 0 && m < len(msg))
 			vf.Assert(s.f.MessageData()[m] == msg[m], "reply-message")
